@@ -3,6 +3,14 @@
 Scenario = (interval, timeout, inputs) with inputs in time order:
   ("conn", up, t) ("start", t) ("stop", t) ("resp", t) ("finish", t); reset_connection() of the stub takes
   `reset_ticks` ticks.  The run is recorded as Spec.Heartbeat events (start/conn/beat/resp/reset/resetDone/stop).
+
+Refused heartbeats (the socket's send buffer is full): the marks ("refuse", t) and ("refusedrop", t) may stand anywhere
+in `inputs`; they are not timed inputs.  A `send()` issued at tick t is then refused: the stub records `refused t` and
+raises the package's `QueueOverflowError`; for "refusedrop" the stub also reports the link down at that very instant,
+after the refusal (`conn 0 t` is recorded by the stub).  `refused` is not a Spec.Heartbeat event: such records are
+compared with the Lean model extended by `beatRefused` (`driver hbx`), they are not for the Spec monitor.  An
+exception that escapes from `HeartbeatManager.stop()` is recorded as `raised <type> <t>` (there is none on a package in
+which a refusal does not end the heartbeat loop).
 """
 import asyncio
 
@@ -11,7 +19,9 @@ from vloop import TICK, ticks
 
 
 class StubSocket:
-    def __init__(self, loop, rec, reset_ticks):
+    def __init__(self, loop, rec, reset_ticks, refuse=(), drop=()):
+        self.refuse = set(refuse)
+        self.drop = set(drop)
         self.loop = loop
         self.rec = rec
         self.is_connected = False
@@ -26,6 +36,14 @@ class StubSocket:
         self.subs.discard(s)
 
     async def send(self, message, retry_policy):
+        now = ticks(self.loop.time())
+        if now in self.refuse:
+            import pyairtouch.comms.socket as S
+            self.rec.append("refused %d" % now)
+            if now in self.drop:
+                self.is_connected = False
+                self.rec.append("conn 0 %d" % now)
+            raise S.QueueOverflowError
         self.sent.append((ticks(self.loop.time()), message, retry_policy))
         self.rec.append("beat %d" % ticks(self.loop.time()))
 
@@ -40,13 +58,22 @@ def run_scenario(interval, timeout, inputs, reset_ticks=1, matching=True):
     loop = vloop.VLoop()
     loop.net = vloop.Net(loop)
     rec = []
-    sock = StubSocket(loop, rec, reset_ticks)
+    refuse = [i[1] for i in inputs if i[0] in ("refuse", "refusedrop")]
+    drop = [i[1] for i in inputs if i[0] == "refusedrop"]
+    inputs = [i for i in inputs if i[0] not in ("refuse", "refusedrop")]
+    sock = StubSocket(loop, rec, reset_ticks, refuse, drop)
     MSG = object()
     RESP = object()
     cfg = H.HeartbeatConfig(message=MSG, response_match=(lambda m: m is RESP), interval=interval * TICK, timeout=timeout * TICK)
     mgr = H.HeartbeatManager(loop, sock, cfg)
 
     running = [False]        # the harness's own view of start()/stop() calls, not the manager's private state
+
+    async def stop():
+        try:
+            await mgr.stop()
+        except Exception as e:      # noqa: BLE001 - whatever escapes is part of the record
+            rec.append("raised %s %d" % (type(e).__name__, ticks(loop.time())))
 
     async def main():
         for inp in inputs:
@@ -68,7 +95,7 @@ def run_scenario(interval, timeout, inputs, reset_ticks=1, matching=True):
                     await asyncio.sleep(0)
             elif k == "stop":
                 started = running[0]
-                await mgr.stop()
+                await stop()
                 running[0] = False
                 if started:
                     rec.append("stop %d" % t)
@@ -84,7 +111,7 @@ def run_scenario(interval, timeout, inputs, reset_ticks=1, matching=True):
             elif k == "finish":
                 await asyncio.sleep(0)
                 await asyncio.sleep(0)
-        await mgr.stop()
+        await stop()
 
     asyncio.set_event_loop(loop)
     try:
